@@ -16,16 +16,32 @@ META = {
              "including recovered and escaping panics, for every defer order; a request rejected by the prefix of a writing handler never "
              "entered the engine. not_holds_of_firstBad refutes the statement from a concrete shape when a program is unsafe. The programs "
              "are extracted from the AST on every run; the model's prediction (outcome class, error code and message, counters, store "
-             "change) is compared with the real handler on generated requests. PROVED: the validation prefix of every handler and the "
-             "defer discipline, plus three engine facts that are part of the programs as `need` steps and decided by the same checker "
-             "(negative paging offset unless the beacon clamps it; a non-writing handler must know the swamp exists before SummonSwamp "
-             "creates it; a creating handler must exclude keys the V2 writer refuses) - a live engine-level defect of these kinds makes "
-             "the verdict `violated`, never `holds`. NOT PROVED (hypothesis EngineSafe of `defined`, tested on every request incl. an "
-             "injected panic at SummonSwamp): apart from those cases the engine below the first SummonSwamp answers instead of panicking."),
+             "change) is compared with the real handler on generated requests. "
+             "WHAT IS PROVED AND WHAT IS TESTED, clause by clause. "
+             "(1) `defined` (an answer or a gRPC error, never (nil, nil) / an escaping panic): PROVED for the validation prefix of every handler "
+             "and for the defer discipline around the engine call, under the hypothesis EnginesAnswer (the engine below the first engine call "
+             "returns instead of panicking). Five engine facts are NOT under that hypothesis: they are `need` steps of the extracted programs, "
+             "decided by the same checker, and a live one makes the verdict `violated`: negative paging offset unless the beacon clamps it; a "
+             "non-writing handler must know the swamp exists before SummonSwamp creates it; a creating handler must exclude keys the V2 "
+             "writer refuses; a summoning writer must exclude a swamp name the V2 header cannot carry; Lock must wait on its caller's context. "
+             "Everything else the engine does is TESTED per request (every generated request, plus a panic injected at SummonSwamp). "
+             "(2) `rejectPure` (a request the prefix of a writing handler rejects never entered the engine): PROVED. The wider reading "
+             "\"a malformed request never corrupts stored data\" is NOT proved; it is TESTED: every touched swamp and the seeded swamps are closed, "
+             "reloaded and compared (classes errchanged = error reply with a changed store, corrupt = a treasure the request did not address "
+             "differs, lostack = an acknowledged write is not there after reload). "
+             "(3) `balanced` (the server can still shut down): PROVED for the safeops system lock and the vigil counter, on every path including "
+             "recovered and escaping panics, for every defer order. Record guards (treasure guards), business locks and hangs are NOT in the "
+             "model; they are TESTED: every touched swamp must close (a leaked record guard blocks the close or the repeated request of mode f), "
+             "StopHydra must return at the end of each case, every unary request carries a client deadline and must be back after it ended, a "
+             "granted business lock must be releasable with the returned ID, and a Lock on a held key must end with its caller's context."),
     "note": ("Trusted: Lean kernel (propext, Classical.choice, Quot.sound); extract/c26.go (statement shapes it accepts; anything else "
              "makes the handler unrecognised and the verdict undetermined); harness/c26.go (shape abstraction of a request, snapshot "
              "comparison). Assumed and only tested: the engine below the prefix does not panic; repeated message fields never hold nil "
-             "(protobuf-go decoding)."),
+             "(protobuf-go decoding). Every unary request carries a client context with a deadline (10 s; Lock on a held key: 400 ms); `hang` "
+             "means: not back 50 s (Lock: 5 s) after that context ended. A granted business lock is unlocked at once with the returned ID, so no "
+             "request waits for an earlier one; Lock TTL boundary values (0, 1, 1000, 1001, -1, MinInt64, MaxInt64, the clamp limit and limit+1) "
+             "are explicit requests that must be granted (`expect=resp`, and for TTL > 10 s the lock must still be there when it is unlocked); "
+             "Lock on a key held by another caller must come back with an error once its own context has ended (`expect=err`)."),
     "design_ref": "§8 C26",
 }
 
@@ -63,7 +79,10 @@ def prefix_keys(facts):
     return out
 
 
-def compatible(op, impl, model, pkeys):
+HAZARD_TAGS = ("-missingswamp", "-negfrom", "-badkey", "-ctxignored", "-name65k")
+
+
+def compatible(op, impl, model, pkeys, flags=()):
     """model prediction vs implementation reply, field by field"""
     if impl == model:
         return True
@@ -72,6 +91,8 @@ def compatible(op, impl, model, pkeys):
     rpc = op.split(" ")[1]
     ci, fi = fields(impl)
     cm, fm = fields(model)
+    if any(f.endswith(t) for f in flags for t in HAZARD_TAGS) and impl_violation(op, impl):
+        return True          # the model flags an engine fact (`need` step) here and the implementation shows the violation
     for k in ("p", "lock", "vig", "close"):
         if fi.get(k) != fm.get(k):
             return False
@@ -110,7 +131,16 @@ def impl_violation(op, line):
     if cls in ("nilnil", "panic"):
         return "%s: %s" % (rpc, SPEC_TEXT[cls])
     if cls == "hang":
-        return "%s never returned (it keeps the system lock, so the server can no longer shut down)" % rpc
+        if kv.get("lock") == "1":
+            return "%s never returned, not even after its caller's context had ended (it keeps the system lock, so the server can no longer shut down)" % rpc
+        return "%s never returned, not even after its caller's context had ended (the handler's goroutine stays behind)" % rpc
+    if cls == "lostlock":
+        return "%s granted a lock with a TTL of more than ten seconds that was already gone when it was given back at once" % rpc
+    lab = op.rsplit(" | m=", 1)[1] if " | m=" in op else ""
+    if lab.endswith(":expect=resp") and cls != "resp":
+        return "%s with %s must be granted (TTL is clamped to 1 s .. the largest representable duration), got: %s" % (rpc, lab.split(":")[0], cls)
+    if lab.endswith(":expect=err") and not cls.startswith("err "):
+        return "%s on a key held by another caller must come back with an error once its own context has ended, got: %s" % (rpc, cls)
     if kv.get("store") == "corrupt":
         return "%s damaged a stored treasure the request did not address" % rpc
     if kv.get("store") == "lostack":
@@ -151,7 +181,7 @@ def shape_tag(op):
 def engine_class(line):
     """short tag of what went wrong, for findings below the validation prefix"""
     cls, kv = fields(line)
-    if cls in ("nilnil", "panic", "hang"):
+    if cls in ("nilnil", "panic", "hang", "lostlock"):
         return cls
     if kv.get("store") == "corrupt":
         return "corrupt"
@@ -197,7 +227,7 @@ def run(ctx):
                 op = c.ops[i] if i < len(c.ops) else ""
                 a = c.impl[i] if i < len(c.impl) else "<missing>"
                 b = c.model[i] if i < len(c.model) else "<missing>"
-                if not compatible(op, a, b, pk):
+                if not compatible(op, a, b, pk, c.flags[i] if i < len(c.flags) else ()):
                     still.append(i)
             c.mismatch = still
             # independent Spec oracle over every implementation reply.  A violation on a line the model
@@ -206,7 +236,7 @@ def run(ctx):
             # a line the model flags because of an engine fact (`need` step) counts as reproduced only where the
             # implementation's own reply shows the violation (e.g. only the legacy engine persists the empty swamp)
             for i, fl in enumerate(c.flags):
-                if fl and any(fl[0].endswith(t) for t in ("-missingswamp", "-negfrom", "-badkey")):
+                if fl and any(fl[0].endswith(t) for t in HAZARD_TAGS):
                     op = c.ops[i] if i < len(c.ops) else ""
                     if i < len(c.impl) and not impl_violation(op, c.impl[i]):
                         c.flags[i] = []
